@@ -412,9 +412,15 @@ def run(ck: Check) -> None:
             bad = None
             for k1 in pts_a:
                 for k2 in pts_b:
+                    out_before = (sys.stdout, sys.stderr)
                     got_a, got_b, ra, rb = sched.staggered(fa, fb, k1, k2, repo_pkg)
                     nsched += 1
                     ck.evaluations += 1
+                    if (sys.stdout, sys.stderr) != out_before:
+                        # two overlapping calls that each "temporarily" redirect output restore it in the wrong order: the process is left writing elsewhere
+                        sys.stdout, sys.stderr = out_before
+                        bad = (k1, k2, "sys.stdout / sys.stderr left replaced after both calls returned", got_b)
+                        break
                     if got_a != want_a or got_b != want_b:
                         bad = (k1, k2, got_a, got_b)
                         break
